@@ -143,7 +143,7 @@ fn square(tier: Tier) -> Vec<N> {
     v
 }
 
-const OPS: &[&str] = &["+", "-", "*", "%", "<", "<=", ">", ">=", "==", "!=", "+=", "-=", "*=", "%=", "/="];
+const OPS: &[&str] = &["+", "-", "*", "%", "<", "<=", ">", ">=", "==", "!=", "+=", "-=", "*=", "%=", "/=", "not <", "not <=", "not >", "not >=", "not ==", "not !="];
 
 #[derive(Clone, Copy)]
 enum Want {
@@ -169,6 +169,13 @@ fn oracle(op: &str, a: &N, b: &N) -> Want {
         ">=" => Want::Bool(Exact::cmp(&x, &y) != Less),
         "==" => Want::Bool(Exact::cmp(&x, &y) == Equal),
         "!=" => Want::Bool(Exact::cmp(&x, &y) != Equal),
+        // x not OP y is not(x OP y): decided on the exact values like the plain forms
+        "not <" => Want::Bool(Exact::cmp(&x, &y) != Less),
+        "not <=" => Want::Bool(Exact::cmp(&x, &y) == Greater),
+        "not >" => Want::Bool(Exact::cmp(&x, &y) != Greater),
+        "not >=" => Want::Bool(Exact::cmp(&x, &y) == Less),
+        "not ==" => Want::Bool(Exact::cmp(&x, &y) != Equal),
+        "not !=" => Want::Bool(Exact::cmp(&x, &y) == Equal),
         // division is exact only when it terminates: decided by multiplying back
         "/=" => Want::Skip,
         _ => Want::Skip,
@@ -181,7 +188,7 @@ fn canonical_of(d: &Decimal) -> String {
 }
 
 fn check_arith(op: &str, a: &N, b: &N, literal: bool, stage: &str, out: &mut WorkerOut) {
-    let setter = op.ends_with('=') && !matches!(op, "==" | "!=" | "<=" | ">=");
+    let setter = op.ends_with('=') && !matches!(op.trim_start_matches("not "), "==" | "!=" | "<=" | ">=");
     let want = oracle(op, a, b);
     let (program, bindings) = if literal && !setter {
         let lit = |n: &N| if n.neg { format!("(- {})", render(false, n.mant, n.scale)) } else { n.text() };
@@ -302,7 +309,7 @@ impl Prop for C09 {
             ],
             rule: format!(
                 "literals: {} mantissas (0..200, 10^k and 10^k±1, 2^k and 2^k±1 up to 96 bits, repdigits, range boundary) x scales 0..28 x spellings (leading zeros, trailing zeros, `1.`) must evaluate to exactly (mantissa, scale); {} malformed literals must be rejected. \
-                 arithmetic: all ordered pairs of {} edge operands and the complete square of {} small operands under + - * % < <= > >= == != and += -= *= %=; the exact result is computed with 256-bit integers and, if it fits 96 bits / 28 places, the engine's result must equal it by value. distinct = distinct (operator, operand-class) key",
+                 arithmetic: all ordered pairs of {} edge operands and the complete square of {} small operands under + - * % < <= > >= == != (and their `x not OP y` forms) and += -= *= %=; the exact result is computed with 256-bit integers and, if it fits 96 bits / 28 places, the engine's result must equal it by value. distinct = distinct (operator, operand-class) key",
                 mantissas().len(),
                 invalid_literals().len(),
                 no,
